@@ -119,8 +119,8 @@ GenNext ==
        \/ /\ Lifecycle /\ ImportStep
           /\ (GenWant = "import-reorg" /\ "import-reorg" \notin flags) => status'[Head(tasks)[2]] # "ready"
           /\ Log([a |-> "ImportStep", w |-> Head(tasks)[2], cur |-> cursor'[Head(tasks)[2]],
-                  done |-> status'[Head(tasks)[2]] = "ready"])
-       \/ /\ Lifecycle /\ RemoveStep /\ Log([a |-> "RemoveStep", w |-> Head(tasks)[2]])
+                  done |-> status'[Head(tasks)[2]] = "ready", qlen |-> Len(tasks)])
+       \/ /\ Lifecycle /\ RemoveStep /\ Log([a |-> "RemoveStep", w |-> Head(tasks)[2], qlen |-> Len(tasks)])
        \/ /\ Crashes /\ Cardinality(TaskSet) <= 1     \* (the order in which a restart re-queues several tasks is the store's key order)
           /\ Crash /\ Log([a |-> "Crash"])
        \/ /\ Crashes /\ Restart /\ Log([a |-> "Restart"])
